@@ -243,6 +243,15 @@ def setHop (h : Nat) : Opts → Opts
   | [] => []
   | (n, v) :: r => if n = 16 then (16, minimalUint 8 h) :: r else (n, v) :: setHop h r
 
+/-! ### message-format rules applied to a prepared response — shared by M and S -/
+/-- RFC 7252 §4.1: an Empty message has no token, options or payload -/
+def emptied (r : Reply) : Reply := { r with code := 0, token := [], opts := [], body := .bytes [] }
+/-- RFC 7641 §3.1/§4.2: the Observe option only accompanies a 2.xx response -/
+def stripObserve (observe : Bool) (x : Reply) : Reply :=
+  if codeClass x.code ≠ 2 ∧ observe then { x with opts := x.opts.filter (·.1 != 6) } else x
+/-- a piggybacked response nobody filled in is the Empty ACK -/
+def ackStrip (x : Reply) : Reply := if x.type = ACK ∧ x.code = 0 then emptied x else x
+
 end Coap.Server
 
 /-! ## S -/
@@ -318,22 +327,17 @@ def mcastSuppressed (cfg : Cfg) (rq : Request) (resFlags : Option Nat) (r : Repl
      else decide (cls > 2)
    | none => decide (cls > 2))
 
-def emptied (r : Reply) : Reply := { r with code := 0, token := [], opts := [], body := .bytes [] }
-
 /-- what is sent for the response `r` prepared for request `rq` -/
 def deliver (cfg : Cfg) (rq : Request) (resFlags : Option Nat) (observe : Bool) (r : Reply) : List Reply :=
   let cls := codeClass r.code
-  -- RFC 7641: Observe only in 2.xx
-  let strip (x : Reply) : Reply := if codeClass x.code ≠ 2 ∧ observe then { x with opts := x.opts.filter (·.1 != 6) } else x
   if cls = 0 then
     -- nothing was set: a Confirmable request still gets its (empty) ACK, a Non-confirmable one nothing
-    if r.code = 0 ∧ r.type = NON then []
-    else [let x := strip r; if x.type = ACK ∧ x.code = 0 then emptied x else x]
+    if r.code = 0 ∧ r.type = NON then [] else [ackStrip (stripObserve observe r)]
   else
     match noResponseSays rq cls with
     | some true => if r.type = ACK then [emptied r] else []
-    | some false => [strip r]
-    | none => if mcastSuppressed cfg rq resFlags r then [] else [strip r]
+    | some false => [stripObserve observe r]
+    | none => if mcastSuppressed cfg rq resFlags r then [] else [stripObserve observe r]
 
 /-! ### stages of request processing -/
 inductive Pre where
